@@ -142,6 +142,7 @@ func runSession(b backend, si int, id uint32, names []string, prog []progOp, mon
 func TestC38Conc(t *testing.T) {
 	st := stats.New("C38", "concurrent")
 	defer st.Flush()
+	curStats = st
 	thorough := os.Getenv("VERIF_TIER") == "thorough"
 	rapid.Check(t, func(rt *rapid.T) {
 		st.Eval()
